@@ -268,7 +268,7 @@ func main() {
 						fmt.Printf("  %c %-60s %s\n", k.Kind, k.Loc, s.Acc[k])
 					}
 				}
-				fmt.Println("irregular:", wr.Irregular, "api:", keys(wr.APICalls), "spawns:", wr.Spawns)
+				fmt.Println("irregular:", wr.Irregular, "api:", keys(wr.APICalls), "spawns:", wr.Spawns, "escapes:", wr.Escapes)
 			}
 		}
 	}
@@ -312,6 +312,9 @@ func summary(table []*Wrapper) {
 			parts = append(parts, fmt.Sprintf("%s(r%d w%d R%d W%d)", s.Mode, n['r'], n['w'], n['R'], n['W']))
 		}
 		fmt.Printf("%-40s %s %s\n", wr.Name, strings.Join(parts, " "), wr.Irregular)
+		for l, site := range wr.Escapes {
+			fmt.Printf("      RETURNS A REFERENCE to %s  at %s\n", l, site)
+		}
 		for _, s := range wr.Sections {
 			if s.Mode != "W" {
 				for k, v := range s.Acc {
@@ -414,6 +417,7 @@ type jsonWrapper struct {
 	Spawns    []string      `json:"spawns,omitempty"`
 	Synthetic bool          `json:"goroutine_body,omitempty"`
 	Exception string        `json:"exception,omitempty"`
+	Escapes   []string      `json:"returned_references,omitempty"`
 }
 
 type jsonDump struct {
@@ -470,6 +474,9 @@ func emit(out, jsonOut, repo string, table []*Wrapper, consts Consts, benign []*
 			for k := range s.Acc {
 				locSet[k.Loc] = true
 			}
+		}
+		for l := range wr.Escapes {
+			locSet[l] = true
 		}
 	}
 	var locs []string
@@ -555,7 +562,20 @@ func emit(out, jsonOut, repo string, table []*Wrapper, consts Consts, benign []*
 		if i == len(table)-1 {
 			sep = ""
 		}
-		fmt.Fprintf(&b, "] |}%s\n", sep)
+		var es []int
+		var esn []string
+		for l, site := range wr.Escapes {
+			es = append(es, id[l])
+			esn = append(esn, l+" @ "+site)
+		}
+		sort.Ints(es)
+		sort.Strings(esn)
+		eq := make([]string, len(es))
+		for i, n := range es {
+			eq[i] = fmt.Sprint(n)
+		}
+		jw.Escapes = esn
+		fmt.Fprintf(&b, "];\n     w_escapes := [%s] |}%s\n", strings.Join(eq, "; "), sep)
 		if ex := classify(wr); ex != "" {
 			exceptions = append(exceptions, [2]string{wr.Name, ex})
 			jw.Exception = ex
